@@ -38,6 +38,15 @@ TCPServer / H11Protocol|H2Protocol / WSStream / wsproto stack, application = acc
   early  messages that arrive while the handshake response is still in flight: the peer stops reading, the handshake
          arrives, the application accepts (trio: the send of the 101 / 200 blocks; asyncio: it waits in the write
          buffer), {all, the first} message(s) arrive, the peer reads again, the rest and the Close follow.
+  slow   the read_timeout axis (config.read_timeout = 3 set; every other family runs with the default None): the
+         application accepts and then reads nothing (parked on a gate) while the client sends MORE messages than the
+         application queue holds in one read - 15 with the default max_app_queue_size of 10, and 5 with a queue of 2 -
+         so the reader is parked inside the protocol on the first message that does not fit.  With everything sent,
+         the clock jumps to the next armed deadline and / or 6 s pass (possible only while no deadline is armed),
+         then the application is released: the client has sent every message completely, so every one of them is
+         delivered, in order, and echoed - no read deadline runs while the reader is parked in the delivery.  (Once
+         the application has caught up the reader waits for bytes again; a silent client is then disconnected by the
+         read deadline, the client's own Close is sent if the connection is still there.)
   The fragmentation, the ping placement and the split are *data choice points* (always fully enumerated).
   Frames come from a hand-written RFC 6455 / 7692 writer (mc/x_c10c11_ref.py); the client's final Close(1000)
   is sent in a read of its own once everything before it was processed.
@@ -83,7 +92,9 @@ TECHNIQUE = ("bounded exhaustive enumeration of client WebSocket sessions (messa
              "executed on the real server stack "
              "under the virtual-time engines; two-connection histories in one world (sequential and every interleaving "
              "of the two sessions' messages, mixed carriers and compression); padded HTTP/2 DATA beyond the initial "
-             "flow-control window; messages arriving while the handshake response is in flight; plus deviation-bounded "
+             "flow-control window; messages arriving while the handshake response is in flight; with config.read_timeout "
+             "set: more messages than the application queue holds sent at once to an application that reads nothing "
+             "until released, virtual time passing while the reader is parked in the delivery; plus deviation-bounded "
              "schedule exploration of frame arrival; the reading client enables permessage-deflate only when the handshake "
              "response of the carrier (101 / HTTP/2 200) announces it")
 RULE = ("one execution = one session (multi: two sessions on two connections in one world); non-trivial = a websocket "
@@ -109,19 +120,24 @@ ASSUMPTIONS = [
     "accepts every plain offer); what it is able to READ is decided by the handshake response alone",
     "early: a client may send frames as soon as the application has accepted although the 101 / 200 has not reached "
     "it yet (its own reading is stalled); the arrival is placed in that window by a guard on the application's accept",
+    "slow: time passes only at quiescence and only after the client has sent all its messages (before that the reader "
+    "waits for bytes and a read deadline may legitimately end the session); the application reads nothing at all "
+    "until it is released, which stands for any application slower than read_timeout",
 ]
 BOUNDS_DOC = {
     "quick": "messages<=2 (+3 unfragmented), K<=2 frames/message, <=1 ping, all 2-way splits + bytewise; pings: 2 pings at every "
              "pair of positions x 3 message sets (mid cut) with the Close in the stream, all 2-way splits + bytewise; "
              "sched M<=1,S<=1; "
              "multi 2 connections x 2 messages each (all 6 merges, seq with/without overlap), 3 compression pairs x 4 carrier "
-             "pairs; pad 260 frames x 255 padding; early 2 messages",
+             "pairs; pad 260 frames x 255 padding; early 2 messages; slow: read_timeout 3, (15 messages, queue 10) and "
+             "(5 messages, queue 2) in one read x {unfragmented, cut in two frames} x {plain, deflate} x carrier x worker, "
+             "clock jump / 6 s lapse / release in every order of the sources (S<=1)",
     "thorough": "messages<=3, K<=3 frames/message (pairs K<=2, triples mid cut only), <=2 pings, all 2-way splits + bytewise; "
                 "pings: 1, 2 and 3 pings at every combination of positions x 5 message sets (mid cut) with the Close in the "
                 "stream; "
                 "sched asyncio M<=2, trio M<=1 with R<=1; multi 2 connections x 3 messages each (all 20 merges), 4 compression "
                 "pairs x 4 carrier pairs, and the two sessions scheduled against each other M<=1,S<=1; pad 260 x 255 "
-                "and 40 x {0, 1}; early 2 and 3 messages",
+                "and 40 x {0, 1}; early 2 and 3 messages; slow: as quick plus (11, 10), (3, 2), (40, 10) messages, S<=2",
 }
 BUDGET = {"quick": 300, "thorough": 1150}
 
@@ -130,7 +146,7 @@ BIG_L = 1 << 20  # the 'big' family: payload sizes around the 7-bit / 16-bit / 6
 
 
 def limit_of(family: str) -> int:
-    return BIG_L if family in ("big", "multi", "pad", "early") else L
+    return BIG_L if family in ("big", "multi", "pad", "early", "slow") else L
 
 
 T = lambda s: ("t", s)  # noqa: E731
@@ -389,9 +405,53 @@ def build_early(params: tuple, pick: Callable[[int, str], int]) -> tuple:
     return engine, sc, case
 
 
+READ_TIMEOUT = 3  # the 'slow' family (every other family: config.read_timeout = None)
+SLOW_APP = [("recv",), ("send", {"type": "websocket.accept"}), ("gate", "h"), ("echo_ws",)]
+SLOW_SHAPES = {"quick": ((15, 10), (5, 2)), "thorough": ((15, 10), (5, 2), (11, 10), (3, 2), (40, 10))}
+
+
+def slow_msgs(n: int) -> tuple:
+    return tuple(T("message-%d" % i) if i % 3 else B(b"message-%d" % i) for i in range(n))
+
+
+def _all_sent(world: Any, ev: tuple) -> bool:
+    """Guard of ('sent',): the client has sent everything it has to send (its source is exhausted)."""
+    return world.driver.pos[0] >= len(world.driver.sources[0][1])
+
+
+def _released(world: Any, ev: tuple) -> bool:
+    return any(e[0] == "release" for _, e in world.driver.fired)
+
+
+def build_slow(params: tuple, pick: Callable[[int, str], int]) -> tuple:
+    """read_timeout set; more messages than the application queue holds, in ONE read, for an application that has
+    accepted and reads nothing until it is released: the reader is parked in the delivery of the first message that
+    does not fit.  Then, as sources of their own (every order): a jump to the next armed deadline, a lapse of
+    2 x read_timeout (enabled only while no deadline is armed), the release of the application; the client's Close
+    follows the release."""
+    _, engine, carrier, deflate, nmsg, qsize = params
+    cut = bool(pick(2, "cut"))
+    case = _conn_case("slow", slow_msgs(nmsg), deflate, cut)
+    conn, opens, wsev = _open_events(0, carrier, deflate, b"/w")
+    client = opens + [wsev(b"".join(fb for _, fb, _ in case["frames"]))]
+    sources = [("client", client),
+               ("clock", [("sent",), ("tick",)]),
+               ("lapse", [("sent",), ("pause_dt", 2 * READ_TIMEOUT)]),
+               ("app", [("sent",), ("release", "h")]),
+               ("fin", [("released",), wsev(close_frame(1000))])]
+    case["queue"] = qsize
+    sc = {"level": "conn", "conns": {0: conn}, "client_factory": make_guard_client, "apps": {"websocket": SLOW_APP},
+          "config": {"websocket_max_message_size": BIG_L, "read_timeout": READ_TIMEOUT, "max_app_queue_size": qsize},
+          "sources": sources, "midflight": False, "trio_rev": False,
+          "guards": {"sent": _all_sent, "released": _released}}
+    return engine, sc, case
+
+
 def build(params: tuple, pick: Callable[[int, str], int]) -> tuple:
     if params[0] == "multi":
         return build_multi(params, pick)
+    if params[0] == "slow":
+        return build_slow(params, pick)
     if params[0] == "pad":
         return build_pad(params, pick)
     if params[0] == "early":
@@ -499,12 +559,16 @@ def extra_scenarios(tier: str) -> List[Any]:
             for d in (False, True):
                 for ms in (EARLY_MSGS[:1] if quick else EARLY_MSGS):
                     out.append(("early", e, c, d, ms))
+                for nmsg, qsize in SLOW_SHAPES[tier]:
+                    out.append(("slow", e, c, d, nmsg, qsize))
     return out
 
 
 def bounds(tier: str, params: Any) -> dict:
     if params[0] == "multi" and params[4] == "conc":
         return {"M": 1, "S": 1, "R": 0}  # (trio with R<=1 is > 10^4 executions per scenario)
+    if params[0] == "slow":  # the order of clock jump / lapse / release / Close
+        return {"M": 0, "S": 1 if tier == "quick" else 2, "R": 0}
     if params[0] != "sched":
         return {"M": 0, "S": 0, "R": 0}
     if tier == "quick":
@@ -586,7 +650,7 @@ def oracle(w: Any, params: Any, case: dict) -> List[dict]:
     carrier, deflate = params[2], params[3]
     for site, detail in sorted(sites.items()):
         out.append(V("internal-error", f"{carrier}:{site}", detail))
-    pre = f"{family}:" if family in ("pad", "early") else ""
+    pre = f"{family}:" if family in ("pad", "early", "slow") else ""
     return out + judge_conn(w.conns[0], list(w.instances), family, carrier, deflate, case, bool(sites), pre)
 
 
@@ -674,9 +738,10 @@ def describe_case(case: dict) -> dict:
     if case["family"] == "multi":
         return {"order": case["order"], "cut": case["cut"],
                 "conns": {k: {"msgs": c["msgs"], "deflate": c["deflate"]} for k, c in case["conn"].items()}}
-    if case["family"] in ("pad", "early"):
+    if case["family"] in ("pad", "early", "slow"):
         return {"messages": len(case["msgs"]), "deflate": case["deflate"], "cuts": case["cuts"],
-                "pad": case.get("pad"), "early_frames": case.get("early_frames"), "first": case["msgs"][:3]}
+                "pad": case.get("pad"), "early_frames": case.get("early_frames"), "queue": case.get("queue"),
+                "first": case["msgs"][:3]}
     return {"msgs": case["msgs"], "deflate": case["deflate"], "cuts": case["cuts"], "pings": case["pings"],
             "split": case["split"], "reads": len(case["segs"])}
 
